@@ -217,7 +217,7 @@ func ValidScenario(sc *Scenario) bool {
 				if sc.Cfg.PingIntervalUs == 0 && sc.Cfg.ResponseTimeoutUs == 0 {
 					return false
 				}
-				if f.Kind == "silentFrom" && sc.Cfg.PingIntervalUs == 0 && sc.Prop != "C18" {
+				if f.Kind == "silentFrom" && sc.Cfg.PingIntervalUs == 0 && sc.Prop != "C18" && sc.Prop != "C19" {
 					return false
 				}
 			}
